@@ -19,14 +19,18 @@ def ss58Encode (H : Bytes → Bytes) (data : Bytes) (fmt : Nat) : R (List Char) 
   let payload := ss58FormatBytes fmt ++ data
   pure (b58Encode btcAlphabet (payload ++ ss58Checksum H payload))
 
-/-- decoding; `strict = true` is the repaired behaviour (reserved first bytes and non-canonical
-two-byte prefixes rejected, empty input rejected with `ValueError`). -/
+/-- `SS58Decoder.Decode` (after the repair: empty input, reserved first bytes 0x80.. and
+non-canonical two-byte prefixes are rejected with `ValueError`). -/
 def ss58Decode (H : Bytes → Bytes) (s : List Char) : R (Nat × Bytes) := do
   let dec ← b58Decode btcAlphabet s
+  if dec.length < 2 then throw .value
   let b0 ← pyIdx dec 0
+  if b0.toNat &&& 128 ≠ 0 then throw .value
   let (fmtLen, fmt) ← if b0.toNat &&& 64 ≠ 0 then do
       let b1 ← pyIdx dec 1
-      pure (2, ((b0.toNat &&& 63) <<< 2) ||| (b1.toNat >>> 6) ||| ((b1.toNat &&& 63) <<< 8))
+      let f := ((b0.toNat &&& 63) <<< 2) ||| (b1.toNat >>> 6) ||| ((b1.toNat &&& 63) <<< 8)
+      if f ≤ 63 then throw .value
+      pure (2, f)
     else pure (1, b0.toNat)
   if fmt = 46 || fmt = 47 then throw .value
   let dataBytes := dropLast (dec.drop fmtLen) 2
